@@ -910,12 +910,18 @@ def getattr_(I, o, name):
                 # a set of objects / scalars united with arbitrary iterables: elements added one by one under the elements' own equality
                 out = set(o)
                 okk = True
-                for x in others:
-                    for e in iterate(I, x):
-                        if is_z3(e):
+                try:
+                    for x in others:
+                        if isinstance(x, (SymSet, SymSeq)):
                             okk = False
                             break
-                        out.add(canon_key(out, e))
+                        for e in iterate(I, x):
+                            if is_z3(e):
+                                okk = False
+                                break
+                            out.add(canon_key(out, e))
+                except Unsupported:
+                    okk = False
                 if okk:
                     return out if isinstance(o, set) else frozenset(out)
             acc = SymSet(_concrete_set(o))
